@@ -26,7 +26,7 @@ import (
 )
 
 var slotNames = []string{"a.yaml", "b.json"}
-var kinds = []dirmodel.Kind{dirmodel.Absent, dirmodel.X, dirmodel.XY, dirmodel.Y, dirmodel.V2, dirmodel.Syn, dirmodel.Sem}
+var kinds = []dirmodel.Kind{dirmodel.Absent, dirmodel.X, dirmodel.XY, dirmodel.Y, dirmodel.V2, dirmodel.Syn, dirmodel.Sem, dirmodel.SchemaBad}
 
 type Case struct {
 	Tool     string            `json:"tool"` // cdi | validate
